@@ -1,6 +1,7 @@
 import Driver.Util
 import ZvbiModel.Search.Model
 import ZvbiModel.Search.Matcher
+import ZvbiModel.Search.Current
 /-! Driver of the `search` model (C17); same line protocol as harness/search_harness.c -/
 namespace Zvbi.Driver.Search
 open Zvbi.Driver Zvbi.Search
@@ -124,7 +125,7 @@ def step (s : St) (ws : List String) : St × String :=
       | none => (s, "rej nosearch")
       | some (_, none) => (s, "ok unsupported")
       | some (ss, some ex) =>
-        let o := searchNext ex walkFuel s.cache ss d
+        let o := searchNext Shape.current ex walkFuel s.cache ss d
         match o.res with
         | .assertFail => (s, "ok assert page_stat")
         | .outOfFuel => (s, "ok hang")
